@@ -1047,3 +1047,64 @@ Lemma operator_slot_refuted_proof :
   let o1 := fst (oper_barriers (oper_deploy original (MkOper [] None) [0; 1]) [0] 4) in
   snd (oper_barriers (oper_deploy original o1 [0; 1]) [1; 0] 6) = [1; 3].
 Proof. vm_compute. reflexivity. Qed.
+
+(* ---------------------------------------------------------------- the operator's keyed state across redeployments *)
+Lemma redeploy_none_is_empty_proof : forall s k,
+  let s' := fst (sstep s (SRedeploy 0)) in
+  (forall i x, In (i, x) (snaps s) -> i <> 0) ->
+  applied s' = [] /\ snd (sstep s' (SEv k)) = 0.
+Proof.
+  intros s k s' H. unfold s'. cbn [sstep fst applied].
+  assert (E : snap_get 0 (snaps s) = None).
+  { induction (snaps s) as [|[i x] t IH]; [reflexivity|]. cbn [snap_get].
+    destruct (i =? 0) eqn:Z; [apply N.eqb_eq in Z; exfalso; eapply H; [left; reflexivity | exact Z]|].
+    apply IH. intros j y Hj. eapply H. right. exact Hj. }
+  rewrite E. split; reflexivity.
+Qed.
+
+Lemma snap_get_In : forall id l x, snap_get id l = Some x -> In (id, x) l.
+Proof.
+  intros id l x. induction l as [|[i y] t IH]; cbn [snap_get]; [discriminate|].
+  destruct (i =? id) eqn:E; [apply N.eqb_eq in E; intros H; inversion H; subst; left; reflexivity | intros H; right; auto].
+Qed.
+
+(* every recorded snapshot is the applied list of an earlier state of the run, ids are positive and below next_id *)
+Definition snaps_ok (s : ost) : Prop :=
+  0 < next_id s /\ forall i x, In (i, x) (snaps s) -> 0 < i < next_id s.
+
+Lemma sstep_snaps_ok : forall s o, snaps_ok s -> snaps_ok (fst (sstep s o)).
+Proof.
+  intros s o [P H]. destruct o; cbn [sstep fst]; unfold snaps_ok; cbn [next_id snaps]; try (split; [exact P | exact H]).
+  split; [lia|]. intros i x [X|X]; [inversion X; subst; lia | specialize (H i x X); lia].
+Qed.
+
+Lemma srun_fst : forall l s, fst (srun s l) = fold_left (fun s o => fst (sstep s o)) l s.
+Proof.
+  induction l as [|o t IH]; intros s; cbn [srun fold_left]; [reflexivity|].
+  destruct (sstep s o) as [s1 b] eqn:E. specialize (IH s1). destruct (srun s1 t) as [s2 bs]. cbn [fst] in *. exact IH.
+Qed.
+
+Lemma srun_snaps_ok : forall l s, snaps_ok s -> snaps_ok (fst (srun s l)).
+Proof.
+  induction l as [|o t IH]; intros s H; cbn [srun]; [exact H|].
+  destruct (sstep s o) as [s1 b] eqn:E. specialize (IH s1). destruct (srun s1 t) as [s2 bs]. cbn [fst] in *.
+  apply IH. change s1 with (fst (s1, b)). rewrite <- E. apply sstep_snaps_ok, H.
+Qed.
+
+(* for every history: a redeployment without a checkpoint leaves the empty state (every count is 0); a redeployment from
+   checkpoint id leaves exactly the state recorded when that checkpoint was taken; a checkpoint records the state it is
+   taken in *)
+Lemma redeploy_restores_checkpoint_state_proof : forall l,
+  let s := fst (srun ost0 l) in
+  (forall k, applied (fst (sstep s (SRedeploy 0))) = [] /\ snd (sstep (fst (sstep s (SRedeploy 0))) (SEv k)) = 0) /\
+  (forall id x, snap_get id (snaps s) = Some x -> applied (fst (sstep s (SRedeploy id))) = x) /\
+  (snap_get (next_id s) (snaps (fst (sstep s SCkpt))) = Some (applied s)) /\
+  (forall k, snd (sstep s (SEv k)) = count k (applied s)).
+Proof.
+  intros l s. assert (OK : snaps_ok s) by (apply srun_snaps_ok; split; [reflexivity | intros i x []]).
+  split; [|split; [|split]].
+  - intros k. apply redeploy_none_is_empty_proof. intros i x H. destruct OK as [_ O]. specialize (O i x H). lia.
+  - intros id x H. cbn [sstep fst applied]. rewrite H. reflexivity.
+  - cbn [sstep fst snaps snap_get]. rewrite N.eqb_refl. reflexivity.
+  - intros k. reflexivity.
+Qed.
